@@ -98,7 +98,8 @@ namespace mustache {
                 archetype_index{info.first_archetype},
                 filtered_archetypes{&fr.filtered_archetypes},
                 first_entity{info.first_entity} {
-            if (!filtered_archetypes->empty()) {
+            // a task may start past the last archetype: tasks beyond the entity count are empty
+            if (archetype_index.toInt() < filtered_archetypes->size()) {
                 const auto& archetype_info = (*filtered_archetypes)[archetype_index.toInt()];
                 const uint32_t num_free_entities_in_arch = archetype_info.entities_count - info.first_entity.toInt();
                 current_size = std::min(dist_to_end, num_free_entities_in_arch);
